@@ -64,3 +64,42 @@ CONTRACTS = [
                  "result == ite(length(s) == 0 or %s, s, '\"' + s + '\"')" % Q],
     ),
 ]
+
+
+# --------------------------------------------------------------------------------------------------------------
+# Lemma (rule engine over the real AST): the typed-default classifier of _parse_out_default_and_doc
+# (cdd/shared/defaults_utils.py) treats a default text as a *code expression* -- and code-quotes it -- as soon as it
+# contains one of a fixed set of marker characters.  "Defaults to <repr(v)>" is what the emitter writes for a
+# numeric / boolean default v, so for the round trip that set must be disjoint from every character repr() can
+# produce for an int, float, complex or bool:
+#     for all v in int | float | complex | bool:  chars(repr(v)) <= NUMBER_REPR_CHARS      (CPython's repr, assumed)
+#     MARKERS & NUMBER_REPR_CHARS == {}                                                     (this obligation)
+# hence no numeric default is ever classified as an expression.
+NUMBER_REPR_CHARS = frozenset("0123456789" ".e+-" "infa" "j()" "TrueFals")
+
+
+def structural(find_def):
+    import ast
+
+    out = []
+    fn = find_def("cdd.shared.defaults_utils", "_parse_out_default_and_doc")
+    name = "_parse_out_default_and_doc/expression-markers-disjoint-from-number-repr"
+    sets = []
+    if fn is not None:
+        for n in ast.walk(fn):
+            # `ast.AST() if <test> else literal_eval(...)`: the marker set is the frozenset constant of the test
+            if isinstance(n, ast.IfExp) and isinstance(n.body, ast.Call) and ast.unparse(n.body.func) in ("ast.AST", "AST"):
+                for m in ast.walk(n.test):
+                    if isinstance(m, ast.Call) and isinstance(m.func, ast.Name) and m.func.id == "frozenset" and len(m.args) == 1:
+                        try:
+                            sets.append(frozenset(ast.literal_eval(m.args[0])))
+                        except ValueError:
+                            sets.append(None)
+    if not sets or any(s_ is None or not all(isinstance(c, str) for c in s_) for s_ in sets):
+        out.append((name, None, "the marker set of the typed-default classifier was not found as a frozenset constant in the test of `ast.AST() if ... else literal_eval(...)`"))
+        return out
+    clash = sorted(set().union(*[set("".join(s_)) for s_ in sets]) & NUMBER_REPR_CHARS)
+    out.append((name, not clash,
+                "marker characters %s never occur in repr() of an int / float / complex / bool" % sorted(set().union(*sets)) if not clash
+                else "marker character(s) %r occur in repr() of numbers (e.g. repr(1e16) == '1e+16', repr(1+2j) == '(1+2j)'): such a default is code-quoted on the way back" % clash))
+    return out
